@@ -49,16 +49,20 @@ pub fn plan(prop: &str, _tier: Tier) -> Vec<(String, u64)> {
         },
         "C18" => vec![v("release", 16)],
         "C12" => match _tier {
-            Tier::Quick => vec![v("release", 8), v("tsan", 8), v("miri", 4)],
+            Tier::Quick => vec![v("release", 8), v("tsan", 8), v("miri", 8)],
             Tier::Thorough => vec![v("release", 16), v("tsan", 16), v("miri", 16)],
         },
         _ => vec![],
     }
 }
 
+/// minimum number of evaluations below which a run is inconclusive (far below what any seed produces)
 pub fn floor(prop: &str, tier: Tier) -> u64 {
-    let _ = (prop, tier);
-    100
+    let _ = tier;
+    match prop {
+        "C18" => 20,
+        _ => 1000,
+    }
 }
 
 pub fn rule(prop: &str) -> (String, Vec<String>) {
@@ -128,7 +132,7 @@ pub fn replay(r: &Value) -> Result<String, (String, String)> {
                 }
                 "C12" => {
                     let mut rng = Rng::keyed(1, "C12/replay", 0);
-                    c12_check(&case, &mut rng, r["extra"]["threads"].as_u64().unwrap_or(3) as usize, 3, &mut Default::default()).map(|_| "pure and deterministic".to_string())
+                    c12_check(&case, &mut rng, r["extra"]["threads"].as_u64().unwrap_or(3) as usize, 3, 4, &mut Default::default()).map(|_| "pure and deterministic".to_string())
                 }
                 _ => Err(("harness".into(), format!("no replay for property {}", prop))),
             }
@@ -149,6 +153,10 @@ pub fn replay(r: &Value) -> Result<String, (String, String)> {
         }
         "splay-exhaustive" => crate::splaymon::exhaustive(r["k"].as_u64().unwrap() as u8, 0, 1, true).map(|x| format!("{} shapes, {} transitions agree", x.shapes, x.transitions)).map_err(|m| ("splay:exhaustive".to_string(), m)),
         "c18" => c18_replay(r),
+        "nextafter" => {
+            let mut rng = Rng::keyed(r["seed"].as_u64().unwrap_or(1), "C10/nextafter", r["shard"].as_u64().unwrap_or(0));
+            c10_nextafter(&mut rng, 200_000).map(|n| format!("{} values agree", n))
+        }
         "triple" => c11_check(&triple_from_json(r), &mut Default::default()).map(|_| "chains agree".to_string()),
         "generated" => {
             let prop = r["property"].as_str().unwrap_or("");
